@@ -46,6 +46,9 @@ type ordEval struct {
 	// locals bound to such records
 	recordOf func(x ast.Expr) *ordRecord
 	recs     map[types.Object]*ordRecord
+	// eqBool: while set, boolean operands whose two sides are equal all have this value (the two
+	// concrete worlds behind "l == r" for a boolean key, see bothWorlds)
+	eqBool *bool
 }
 
 type ordRecord struct {
@@ -140,6 +143,13 @@ func (e *ordEval) evalInt(x ast.Expr) int64 {
 		if v.Op == token.SUB {
 			return -e.evalInt(v.X)
 		}
+	case *ast.IndexExpr:
+		// TABLE[i][j] with TABLE a package-level array written as a literal of constants that nothing
+		// assigns: the entry the indices select; indices computed from equal boolean operands are
+		// evaluated in both worlds and must select the same value
+		if n, ok := e.tableEntry(v); ok {
+			return n
+		}
 	case *ast.BinaryExpr:
 		// rank[l] - rank[r] with rank a package-level table keyed by the two boolean operands of one
 		// key: under an ordering of (l, r) both values are known (false < true), equal operands give 0
@@ -171,7 +181,7 @@ func (e *ordEval) evalInt(x ast.Expr) int64 {
 		}
 		if e.callee != nil && e.depth < 4 {
 			if params, body := e.callee(v); body != nil && len(params) == len(v.Args) {
-				sub := &ordEval{info: e.info, side: e.side, ord: e.ord, slices: e.slices, bools: e.bools, ints: map[types.Object]int64{}, callee: e.callee, depth: e.depth + 1}
+				sub := &ordEval{info: e.info, side: e.side, ord: e.ord, slices: e.slices, bools: e.bools, ints: map[types.Object]int64{}, callee: e.callee, depth: e.depth + 1, eqBool: e.eqBool}
 				for k, val := range e.ints {
 					sub.ints[k] = val
 				}
@@ -190,7 +200,7 @@ func (e *ordEval) evalInt(x ast.Expr) int64 {
 		// o.(*T).Val)): its body with the arguments in place, so that the operands keep their sides
 		if e.inl != nil && e.depth < 4 {
 			if body := e.inl.Body(v); body != nil {
-				sub := &ordEval{info: e.info, side: e.side, ord: e.ord, slices: e.slices, bools: e.bools, ints: map[types.Object]int64{}, callee: e.callee, inl: e.inl, sels: e.sels, depth: e.depth + 1}
+				sub := &ordEval{info: e.info, side: e.side, ord: e.ord, slices: e.slices, bools: e.bools, ints: map[types.Object]int64{}, callee: e.callee, inl: e.inl, sels: e.sels, depth: e.depth + 1, eqBool: e.eqBool}
 				for k, val := range e.ints {
 					sub.ints[k] = val
 				}
@@ -252,6 +262,9 @@ func (e *ordEval) evalBool(x ast.Expr) bool {
 				return true
 			case o < 0:
 				return false
+			}
+			if e.eqBool != nil {
+				return *e.eqBool
 			}
 			e.fail("bool operand %s tested although both sides are equal (value not determined by the ordering)", types.ExprString(x))
 			return false
@@ -316,7 +329,18 @@ func (e *ordEval) evalBool(x ast.Expr) bool {
 			b := e.evalBool(v.X)
 			return (b == constant.BoolVal(tv.Value)) == (v.Op == token.EQL)
 		}
-		a, b := e.evalInt(v.X), e.evalInt(v.Y)
+		var a, b int64
+		if v.Op == token.EQL || v.Op == token.NEQ {
+			// f(l) == f(r) with l, r equal booleans: the same in both worlds or not decided
+			d := e.bothWorlds(func() int64 {
+				if e.evalInt(v.X) == e.evalInt(v.Y) {
+					return 1
+				}
+				return 0
+			})
+			return (d == 1) == (v.Op == token.EQL)
+		}
+		a, b = e.evalInt(v.X), e.evalInt(v.Y)
 		switch v.Op {
 		case token.EQL:
 			return a == b
@@ -433,7 +457,7 @@ func (e *ordEval) run(list []ast.Stmt) (ordResult, bool) {
 			if len(v.Lhs) > 1 && len(v.Rhs) == 1 && e.callee != nil && e.depth < 4 {
 				if call, isCall := ast.Unparen(v.Rhs[0]).(*ast.CallExpr); isCall {
 					if params, body := e.callee(call); body != nil && len(params) == len(call.Args) {
-						sub := &ordEval{info: e.info, side: e.side, ord: e.ord, slices: e.slices, bools: map[string]bool{}, ints: map[types.Object]int64{}, callee: e.callee, depth: e.depth + 1}
+						sub := &ordEval{info: e.info, side: e.side, ord: e.ord, slices: e.slices, bools: map[string]bool{}, ints: map[types.Object]int64{}, callee: e.callee, depth: e.depth + 1, eqBool: e.eqBool}
 						for k, val := range e.ints {
 							sub.ints[k] = val
 						}
@@ -738,4 +762,135 @@ func (e *ordEval) rankDiff(a, b ast.Expr) (int64, bool) {
 		return vals[false] - vals[true], true
 	}
 	return vals[true] - vals[false], true
+}
+
+// bothWorlds evaluates f; when that fails only because a boolean operand whose sides are equal was
+// tested, f is evaluated with all such operands false and with all of them true, and both must agree.
+func (e *ordEval) bothWorlds(f func() int64) int64 {
+	if e.eqBool != nil {
+		return f()
+	}
+	saved := e.err
+	r := f()
+	if e.err == saved {
+		return r
+	}
+	if !strings.Contains(e.err, "value not determined by the ordering") {
+		return r
+	}
+	e.err = saved
+	t, fl := true, false
+	e.eqBool = &fl
+	r1 := f()
+	e.eqBool = &t
+	r2 := f()
+	e.eqBool = nil
+	if e.err != saved {
+		return 0
+	}
+	if r1 != r2 {
+		e.fail("the result depends on the value of boolean operands that are equal on both sides")
+		return 0
+	}
+	return r1
+}
+
+// tableEntry: x is T[i]…[k] over a stable package-level array literal of integer constants.
+func (e *ordEval) tableEntry(x *ast.IndexExpr) (int64, bool) {
+	var idx []ast.Expr
+	var base ast.Expr = x
+	for {
+		ix, ok := ast.Unparen(base).(*ast.IndexExpr)
+		if !ok {
+			break
+		}
+		idx = append([]ast.Expr{ix.Index}, idx...)
+		base = ix.X
+	}
+	id, ok := ast.Unparen(base).(*ast.Ident)
+	if !ok || curProg == nil {
+		return 0, false
+	}
+	tv, _ := e.info.ObjectOf(id).(*types.Var)
+	if tv == nil || tv.Pkg() == nil || tv.Parent() != tv.Pkg().Scope() {
+		return 0, false
+	}
+	ce := &constEvaluator{p: curProg}
+	if !ce.pkgVarStable(tv) {
+		return 0, false
+	}
+	var lit *ast.CompositeLit
+	var linfo *types.Info
+	for _, pk := range curProg.Pkgs {
+		if pk.Types != tv.Pkg() {
+			continue
+		}
+		for _, f := range pk.Syntax {
+			for _, d := range f.Decls {
+				gd, ok := d.(*ast.GenDecl)
+				if !ok || gd.Tok != token.VAR {
+					continue
+				}
+				for _, sp := range gd.Specs {
+					vs := sp.(*ast.ValueSpec)
+					for i, nm := range vs.Names {
+						if pk.TypesInfo.Defs[nm] == types.Object(tv) && i < len(vs.Values) && len(vs.Values) == len(vs.Names) {
+							lit, _ = ast.Unparen(vs.Values[i]).(*ast.CompositeLit)
+							linfo = pk.TypesInfo
+						}
+					}
+				}
+			}
+		}
+	}
+	if lit == nil {
+		return 0, false
+	}
+	okAll := true
+	res := e.bothWorlds(func() int64 {
+		cur := lit
+		for depth, ie := range idx {
+			n := e.evalInt(ie)
+			if e.err != "" {
+				return 0
+			}
+			if _, isArr := linfo.TypeOf(cur).Underlying().(*types.Array); !isArr {
+				okAll = false
+				return 0
+			}
+			if n < 0 || int(n) >= len(cur.Elts) {
+				okAll = false
+				return 0
+			}
+			el := cur.Elts[n]
+			if _, isKV := el.(*ast.KeyValueExpr); isKV {
+				okAll = false
+				return 0
+			}
+			if depth == len(idx)-1 {
+				etv, ok := linfo.Types[el]
+				if !ok || etv.Value == nil {
+					okAll = false
+					return 0
+				}
+				v, ok := constant.Int64Val(constant.ToInt(etv.Value))
+				if !ok {
+					okAll = false
+				}
+				return v
+			}
+			nx, ok := ast.Unparen(el).(*ast.CompositeLit)
+			if !ok {
+				okAll = false
+				return 0
+			}
+			cur = nx
+		}
+		okAll = false
+		return 0
+	})
+	if !okAll || e.err != "" {
+		return 0, false
+	}
+	return res, true
 }
